@@ -1,9 +1,18 @@
 #include "poseidon_goldilocks.hpp"
 #include <math.h> /* floor */
 #include "merklehash_goldilocks.hpp"
+#ifdef GOLDILOCKS_VERIF
+#include "goldilocks_verif.hpp"
+goldilocks_verif_tracer_t goldilocks_verif_tracer = 0;
+#endif
 
 void PoseidonGoldilocks::hash_full_result_seq(Goldilocks::Element *state, const Goldilocks::Element *input)
 {
+#ifdef GOLDILOCKS_VERIF
+    uint64_t verif_in_[12];
+    if (goldilocks_verif_tracer)
+        std::memcpy(verif_in_, input, sizeof(verif_in_));
+#endif
     const int length = SPONGE_WIDTH * sizeof(Goldilocks::Element);
     std::memcpy(state, input, length);
 
@@ -34,6 +43,10 @@ void PoseidonGoldilocks::hash_full_result_seq(Goldilocks::Element *state, const 
     }
     pow7_(&(state[0]));
     mvp_(state, PoseidonGoldilocksConstants::M);
+#ifdef GOLDILOCKS_VERIF
+    if (goldilocks_verif_tracer)
+        goldilocks_verif_tracer(GOLDILOCKS_VERIF_PERM_SEQ, verif_in_, (const uint64_t *)state, 12);
+#endif
 }
 void PoseidonGoldilocks::linear_hash_seq(Goldilocks::Element *output, Goldilocks::Element *input, uint64_t size)
 {
@@ -165,6 +178,11 @@ void PoseidonGoldilocks::merkletree_batch_seq(Goldilocks::Element *tree, Goldilo
 
 void PoseidonGoldilocks::hash_full_result(Goldilocks::Element *state, const Goldilocks::Element *input)
 {
+#ifdef GOLDILOCKS_VERIF
+    uint64_t verif_in_[12];
+    if (goldilocks_verif_tracer)
+        std::memcpy(verif_in_, input, sizeof(verif_in_));
+#endif
     const int length = SPONGE_WIDTH * sizeof(Goldilocks::Element);
     std::memcpy(state, input, length);
     __m256i st0, st1, st2;
@@ -225,6 +243,10 @@ void PoseidonGoldilocks::hash_full_result(Goldilocks::Element *state, const Gold
     Goldilocks::store_avx(&(state[0]), st0);
     Goldilocks::store_avx(&(state[4]), st1);
     Goldilocks::store_avx(&(state[8]), st2);
+#ifdef GOLDILOCKS_VERIF
+    if (goldilocks_verif_tracer)
+        goldilocks_verif_tracer(GOLDILOCKS_VERIF_PERM_AVX, verif_in_, (const uint64_t *)state, 12);
+#endif
 }
 void PoseidonGoldilocks::linear_hash(Goldilocks::Element *output, Goldilocks::Element *input, uint64_t size)
 {
@@ -354,6 +376,11 @@ void PoseidonGoldilocks::merkletree_batch_avx(Goldilocks::Element *tree, Goldilo
 #ifdef __AVX512__
 void PoseidonGoldilocks::hash_full_result_avx512(Goldilocks::Element *state, const Goldilocks::Element *input)
 {
+#ifdef GOLDILOCKS_VERIF
+    uint64_t verif_in_[24];
+    if (goldilocks_verif_tracer)
+        std::memcpy(verif_in_, input, sizeof(verif_in_));
+#endif
 
     const int length = 2 * SPONGE_WIDTH * sizeof(Goldilocks::Element);
     std::memcpy(state, input, length);
@@ -428,6 +455,10 @@ void PoseidonGoldilocks::hash_full_result_avx512(Goldilocks::Element *state, con
     Goldilocks::store_avx512(&(state[0]), st0);
     Goldilocks::store_avx512(&(state[8]), st1);
     Goldilocks::store_avx512(&(state[16]), st2);
+#ifdef GOLDILOCKS_VERIF
+    if (goldilocks_verif_tracer)
+        goldilocks_verif_tracer(GOLDILOCKS_VERIF_PERM_AVX512, verif_in_, (const uint64_t *)state, 24);
+#endif
 }
 void PoseidonGoldilocks::linear_hash_avx512(Goldilocks::Element *output, Goldilocks::Element *input, uint64_t size)
 {
